@@ -466,40 +466,10 @@ def rule_const_index(ctx, repo, graph):
     x long enough (the stack accesses have their own engine, C07.D1).  Signatures and public keys come off the stack as
     arbitrary byte strings - one byte long, for instance - so an unguarded constant index is an IndexError out of
     VerifyScript."""
-    from ..escape import implied_at
     r = ctx.rule('C07.I2', 'constant indices into byte strings taken from scripts are guarded by a length test on every path', engine='GUARD', floor=1)
-    n = 0
-    for q in sorted(graph):
-        f = repo.functions.get(q)
-        if f is None or not f.module.relpath.startswith('bitcoin/'):
-            continue
-        for x in walk_no_nested(f.node):
-            if not (isinstance(x, ast.Subscript) and isinstance(x.ctx, ast.Load) and isinstance(x.value, ast.Name) and x.value.id in f.params):
-                continue
-            if x.value.id in STACKS or x.value.id in ('self', 'cls'):
-                continue
-            sl = x.slice
-            k = None
-            if isinstance(sl, ast.Constant) and isinstance(sl.value, int) and not isinstance(sl.value, bool):
-                k = sl.value
-            elif isinstance(sl, ast.UnaryOp) and isinstance(sl.op, ast.USub) and isinstance(sl.operand, ast.Constant) and isinstance(sl.operand.value, int):
-                k = -sl.operand.value
-            if k is None:
-                continue
-            n += 1
-            need = k + 1 if k >= 0 else -k
-            key = '%s:%s' % (q.replace('bitcoin.core.', ''), norm(x))
-            try:
-                v = implied_at(repo, f, x, 'len(%s) >= %d' % (x.value.id, need), truthy_len={x.value.id})
-            except Exception as e:  # the guard algebra does not model a test on this path
-                v = None
-            if v is True:
-                r.ok(key, common.site_of(f, x), 'len(%s) >= %d on every path to it' % (x.value.id, need))
-            elif v is False:
-                r.violated(key, common.site_of(f, x), '`%s` in %s is reached with len(%s) < %d possible (the tests before it do not exclude it): a short byte string from a script '
-                           'raises IndexError out of verification' % (norm(x), q, x.value.id, need), sure=True)
-            else:
-                r.undecided(key, common.site_of(f, x), 'whether `%s` is guarded is not decided by the guard algebra' % norm(x))
+    funcs = [repo.functions[q] for q in sorted(graph) if q in repo.functions and repo.functions[q].module.relpath.startswith('bitcoin/')]
+    n = common.const_index_instances(r, repo, funcs, skip=STACKS + ('self', 'cls'),
+                                     what='a short byte string from a script raises IndexError out of verification')
     if n == 0:
         r.undecided('instances', '', 'no constant index found (the confirmed tree has `sig[-1]` in _CheckSig)')
 
